@@ -26,12 +26,12 @@ ASSUMPTIONS = ["output period a whole multiple of dt (the statement's validity c
 
 S0 = world.tosec("2020-03-01T00:00:00")
 DT = 60
-PROTOS = ["out.nc", "out_07.nc", "a_42_007.nc"]
+PROTOS = ["out.nc", "out_07.nc", "a_42_007.nc", "exp10_01.nc", "drift_2000_000.nc", "r_7_77.nc"]
 
 
 def bounds(tier, seed):
     if tier == "quick":
-        return dict(nsteps=list(range(1, 10)), periods=[1, 2, 3, 4], numrec=[0, 1, 2, 3], protos=[PROTOS[seed % 3], PROTOS[(seed + 1) % 3]])
+        return dict(nsteps=list(range(1, 10)), periods=[1, 2, 3, 4], numrec=[0, 1, 2, 3], protos=PROTOS)
     return dict(nsteps=list(range(1, 14)), periods=[1, 2, 3, 4, 5, 7], numrec=[0, 1, 2, 3, 4, 7], protos=PROTOS)
 
 
@@ -39,7 +39,12 @@ def cases(tier, seed):
     b = bounds(tier, seed)
     out = []
     for n, p, layout, pv, rev, extra in itertools.product(b["nsteps"], b["periods"], ["sparse", "dense"], [False, True], [False, True], [0, 25]):
-        out.append(dict(mode="group", nsteps=n, period=p, layout=layout, pvars=pv, rev=rev, extra=extra, numrecs=b["numrec"], protos=b["protos"]))
+        # the file-name prototype only matters to the name generator: all prototypes in one slice of the lattice, one (seed-chosen) elsewhere
+        protos = b["protos"] if (layout == "sparse" and not pv and extra == 0 and (tier == "thorough" or not rev)) else [PROTOS[(seed + n) % len(PROTOS)]]
+        out.append(dict(mode="group", nsteps=n, period=p, layout=layout, pvars=pv, rev=rev, extra=extra, numrecs=b["numrec"], protos=protos, late=False))
+        if not rev and n >= 3 and extra == 0:
+            # first release two steps after the start: the first scheduled records hold no particle at all
+            out.append(dict(mode="group", nsteps=n, period=p, layout=layout, pvars=pv, rev=rev, extra=extra, numrecs=b["numrec"][:3], protos=protos[:1], late=True))
     return out
 
 
@@ -61,7 +66,8 @@ def one_run(case, numrec, proto):
     sgn = -1 if rev else 1
     d = util.scratch("c07")
     stop = S0 + sgn * (n * DT + case["extra"])
-    rows = [dict(release_time=world.iso(S0), X=3.0, Y=4.0, Z=1.0, weight=2.5), dict(release_time=world.iso(S0), X=5.0, Y=6.0, Z=1.0, weight=3.5)]
+    first = 2 if case.get("late") else 0
+    rows = [dict(release_time=world.iso(S0 + first * DT), X=3.0, Y=4.0, Z=1.0, weight=2.5), dict(release_time=world.iso(S0 + first * DT), X=5.0, Y=6.0, Z=1.0, weight=3.5)]
     if not rev and n > 3:
         rows.append(dict(release_time=world.iso(S0 + 3 * DT), X=7.0, Y=5.0, Z=2.0, weight=4.5))
     outvars = ("pid", "X", "Y")
@@ -75,7 +81,7 @@ def one_run(case, numrec, proto):
     conf = drive.analytic_conf(d, S0, stop, DT, rows, outvars=outvars, period=P * DT, numrec=numrec, layout=case["layout"],
                                field="const", params=dict(a=0.25 / DT, b=0.125 / DT, L=100.0), reversed_=rev, filename=proto, **kw)
     sub = dict(case, mode="single", numrec=numrec, proto=proto)
-    tag = f"N={n} P={P} numrec={numrec} {case['layout']} pvars={case['pvars']} rev={rev} extra={case['extra']} proto={proto}"
+    tag = f"N={n} P={P} numrec={numrec} {case['layout']} pvars={case['pvars']} rev={rev} extra={case['extra']} proto={proto} late={case.get('late', False)}"
     try:
         drive.run_main(conf, d)
     except drive.RunFailed as e:
@@ -105,7 +111,7 @@ def one_run(case, numrec, proto):
     exp_times = [float(S0 + sgn * s * DT) for s in due]
     if times != exp_times:
         v.append(util.viol("records:times", f"{tag}: times-S0 {[t - S0 for t in times]} expected {[t - S0 for t in exp_times]}", sub))
-    released = lambda s: 2 + (1 if (not rev and n > 3 and s >= 3) else 0)  # noqa: E731
+    released = lambda s: (2 if s >= first else 0) + (1 if (not rev and n > 3 and s >= 3) else 0)  # noqa: E731
     if case["layout"] == "sparse":
         for f in out["files"]:
             if f["n_instance"] != f["sum_count"]:
